@@ -96,14 +96,17 @@ def run(ctx):
                     jobs.append((tag, exe, [sc, seed, n, k], env, aff))
     # memory pressure: a young generation that dominates a small heap plus a high survival rate (promotion has to fail over
     # into to-space in the middle of a minor collection); generational collector only, no forced collections
-    for si in range(ctx.pick(2, 8)):
+    for si in range(ctx.pick(3, 12)):
         for (be, gc), exe in sorted(built["graphs"].exes.items()):
             if gc != "swiper":
                 continue
             r = ctx.rng("tight", jid)
             jid += 1
-            heap, young, n = r.choice([("8M", "7M", 150000), ("8M", "7M", 170000), ("8M", "6M", 150000), ("16M", "14M", 300000)])
-            flags = "--max-heap-size=%s --gc-young-size=%s --gc-worker=%d%s%s" % (heap, young, r.choice([1, 2, 8]), " --gc-verify" if r.random() < 0.6 else "",
+            # sizes calibrated on the pinned tree: the live list fits (no out-of-memory) but survivors outnumber the old
+            # generation's growth steps, so promotions fail over into to-space in the middle of minor collections
+            heap, young, n = r.choice([("8M", "7M", r.randrange(160, 300) * 1000), ("8M", "7M", r.randrange(160, 300) * 1000),
+                                       ("16M", "14M", r.randrange(320, 600) * 1000)])
+            flags = "--max-heap-size=%s --gc-young-size=%s --gc-worker=%d%s%s" % (heap, young, r.choice([1, 2, 8]), " --gc-verify" if r.random() < 0.8 else "",
                                                                                    " --disable-tlab" if r.random() < 0.2 else "")
             seed = ctx.seed * 1000 + si
             k = r.choice([3, 4, 7])
